@@ -143,8 +143,10 @@ fn work(args: &[String]) -> ExitCode {
         {
             // digest of everything this run observed: compared across worker partitions / OS processes
             let mut d = rep.digest.unwrap_or(0);
-            for (fp, _) in &rep.fingerprints {
-                d = (d.rotate_left(11) ^ fp).wrapping_mul(0x9E37_79B9_7F4A_7C15);
+            if !rep.digest_excludes_fingerprints {
+                for (fp, _) in &rep.fingerprints {
+                    d = (d.rotate_left(11) ^ fp).wrapping_mul(0x9E37_79B9_7F4A_7C15);
+                }
             }
             d ^= n_violations;
             digests.insert(run.to_string(), format!("{d:016x}"));
